@@ -116,6 +116,9 @@ def _pump(p, stdin, timeout, max_output):
 def _preexec(fsize, ignore_sigpipe, as_limit):
     def fn():
         resource.setrlimit(resource.RLIMIT_CORE, (0, 0))
+        # backstop far beyond every watchdog (<= 120 s wall, single-threaded programs): a run that spins after
+        # its check was killed from outside must not keep a core for ever
+        resource.setrlimit(resource.RLIMIT_CPU, (600, 600))
         if fsize is not None:
             signal.signal(signal.SIGXFSZ, signal.SIG_IGN)
             resource.setrlimit(resource.RLIMIT_FSIZE, (fsize, fsize))
